@@ -79,10 +79,14 @@ def family():
         keytype='identifier',
         types=[stype('ta', [key('+', attr='hosts', dt='integer',
                                 defaults=[('h1', '1'), ('H2', '2')]),
-                            ], keytype='ipaddr-or-hostname')],
+                            ], keytype='ipaddr-or-hostname'),
+               stype('tb', [key('kd', default='d'), key('+', attr='any')])],
         items=[multikey('+', attr='mm', defaults=[('Ka', 'x'), ('Ka', 'y'), ('kb', 'z')]),
                multikey('Kc', required=True, defaults=['d']),
-               multisection('ta', '*', attr='ts')])
+               multisection('ta', '*', attr='ts'),
+               # a section type WITHOUT a key type of its own in a schema whose key type is identifier: it is
+               # basic-key, not the schema's
+               section('tb', 'sb')])
     F['S6'] = schema(
         types=[stype('ta', [key('ka')]), stype('tb', [key('kb')])],
         items=[section('ta', 'sa', required=True),
@@ -98,6 +102,7 @@ def family():
                key('kc', 'identifier'),
                key('kd', 'inet-address', default=':80'),
                key('k-e', 'basic-key', default='Ab'),
+               key('k--f', default='ff'),
                section('ta', '*', attr='sa'),
                multisection('ta', '+', attr='ms')])
     F['S8'] = schema(
